@@ -77,6 +77,7 @@ class Contract:
     heap: dict[str, str] = field(default_factory=dict)   # fields of symbolic refs kept in a heap: name -> kind
     unknown_calls: str = "error"      # 'error': generation error (exit 3); 'effect': logged as UNMODELLED effect
     shards: int = 1                    # split the discharge of this unit over that many pool processes
+    unfold_depth: int = 2              # closure depth of the definitional unfolding of joinr / strip / substr per query
     assumes: list[str] = field(default_factory=list)   # assumptions made by this contract (dependencies' invariants, regex facts): reported
 
     def clause(self, c):
